@@ -39,7 +39,7 @@ type caseT struct {
 	Procs       int      `json:"procs,omitempty"` // GOMAXPROCS for this case (0 = leave)
 	Senders     int      `json:"senders,omitempty"`
 	Comment     string   `json:"comment,omitempty"`
-	Arg         string   `json:"arg,omitempty"` // programs: a further parameter (e.g. the stage a program is about)
+	Arg         string   `json:"arg,omitempty"`          // programs: a further parameter (e.g. the stage a program is about)
 	Partial     bool     `json:"partial,omitempty"`      // failing FMap arrows emit part of their output first
 	DupInput    bool     `json:"dup_input,omitempty"`    // Join: the first input channel is passed twice
 	NilInput    bool     `json:"nil_input,omitempty"`    // Join: a nil channel is among the inputs (never closes)
